@@ -49,3 +49,12 @@ Theorem C15_source_changes : forall t, changes t = fold_left (fun x st => interp
 Proof. exact tie_changes. Qed.
 Check C15_source_changes : forall t, changes t = fold_left (fun x st => interp_cstep st x) g_changes_skel (t, []).
 Print Assumptions C15_source_changes.
+
+From Avt Require Import Gen.TermFns Proofs.TermTie Proofs.TermTieW Proofs.TermTieX.
+(** SOURCE TIE BY PROOF (translate/term2coq.py -> Gen/TermFns.v, W-mode): the method of `impl Terminal` is REGENERATED from src/terminal.rs on every run as a function over the scalar record `zt` and an abstract world behind the interface `zops` (recorded calls of the buffer / tabs / dirty-line primitives with their evaluated arguments, queries for tab stops / cells / charset translation); instantiated with the model's own primitives (`Om`) it is proved equal to the hand-written model function, panics included: the model performs exactly the primitive calls the Rust text performs - same arguments, order, marked rows, erase modes, case splits *)
+(** Terminal::execute as a whole: every dirty-line marking (`EvDirtyAdd`, `extend` ranges) the Rust text performs is performed by the model with the same rows *)
+Theorem C15_source_execute : forall t f, TInv t -> w_execute Om (zabs t) (wabs t) f = Some (wres (execute t f)).
+Proof. exact tie_execute_all. Qed.
+Check C15_source_execute : forall t f, TInv t -> w_execute Om (zabs t) (wabs t) f = Some (wres (execute t f)).
+Print Assumptions C15_source_execute.
+
